@@ -322,7 +322,7 @@ def run(ctx):
     ctx.bound("depth2_base_programs", len(depth2))
     ctx.bound("depth2_outer_contexts", "one per (inner template, role of the expanded slot); edits inside the expanded slot" if quick else "all; all edits")
     ctx.bound("parameter_fills", "canonical (first two slots are parameters)" if quick else "every subset of <=2 slots as parameters + shared parameter")
-    ctx.bound("expression_alternatives", len(tg.EXPR_ALTS))
+    ctx.bound("expression_alternatives", f"{len(tg.EXPR_ALTS)} literals + names in scope" + (f" ({len(tg.EXPR_ALTS_SMALL)} literals inside depth-2 slots)" if quick else ""))
     ctx.bound("annotation_alternatives", len(tg.HINT_ALTS))
     ctx.bound("pattern_alternatives", len(tg.PAT_ALTS))
     ctx.bound("method_name_alternatives", len(tg.METHOD_ALTS))
@@ -339,7 +339,10 @@ def run(ctx):
 
     def d2():
         for n, p, ip, _ in depth2:
-            yield from mutants(p, n, only_under=ip if quick else None)
+            if quick:
+                yield from mutants(p, n, only_under=ip, small=True)
+            else:
+                yield from mutants(p, n)
     for ch in chunks(d2(), 40000):
         ex.process(ch)
     n_single = ex.n["programs"] - n_base
